@@ -116,19 +116,8 @@ int vx_thrown;
 static inline size_t vx_idx(size_t i, size_t n) { __CPROVER_assert(i < n, "VX_BOUND subscript within logical capacity N"); return i; }
 ''' % CAP
 
-# R8 is justified by the one-line bodies of iterator_base: each is one pointer operation
-FACTS = [
-    r'constexpr it_type operator - \(size_type amount\) const \{ return it_type\{ cast\(\)->ptr - amount \}; \}',
-    r'constexpr size_type operator - \(const it_type& other\) const \{ return size_type\(cast\(\)->ptr - other\.ptr\); \}',
-    r'constexpr it_type operator \+ \(size_type amount\) const \{ return it_type\{ cast\(\)->ptr \+ amount \}; \}',
-    r'constexpr it_type& operator \+\+\(\) \{ \+\+\(cast\(\)->ptr\); return \*cast\(\); \}',
-    r'constexpr bool operator == \(const it_type& other\) const \{ return cast\(\)->ptr == other\.ptr; \}',
-    r'constexpr bool operator > \(const it_type& other\) const \{ return cast\(\)->ptr > other\.ptr; \}',
-    r'constexpr bool operator < \(const it_type& other\) const \{ return cast\(\)->ptr < other\.ptr; \}',
-    r'constexpr iterator begin\(\) \{ return iterator\(the_data\); \}',
-    r'constexpr iterator end\(\) \{ return iterator\(the_data \+ current_size\); \}',
-    r'constexpr T& operator \*\(\) const \{ return \*ptr; \}',
-]
+# R8 (iterators are element offsets) rests on the one-line bodies of iterator_base / iterator / begin / end: under contract in unit cvec_iter
+FACTS = []
 
 UNIT = Unit('stdex', PRELUDE + cvector_struct('cvecv', 'uint32_t') + cvector_struct('cvec16', 'size16_t'), make_cvector('cvecv', 'uint32_t') + make_cvector('cvec16', 'size16_t'),
             consts=[('VX_FACT_%d' % i, '(' + rx + ')', None) for i, rx in enumerate(FACTS) if False])
